@@ -341,6 +341,18 @@ def run(ctx):
             finally:
                 S.close(run)
     submitted_input_family(ctx)
+    # events that arrive flagged "redelivered" although nobody ever handled them (their first consumer died before doing anything): they are handled for
+    # the first time, so the log must be the ordinary one
+    for k in range(ctx.pick(40, 600)):
+        if not ctx.mine(k):
+            continue
+        rng = ctx.rng("redelivered-unhandled", k)
+        scn, meta = F.scenario(rng, ["sequential", "fanout-none"][k % 2], n_exec=1, via=("event-redelivered",))
+        first = scn["machines"]["m"]["asl"]["States"][scn["machines"]["m"]["asl"]["StartAt"]]
+        if first.get("Type") == "Task":
+            continue        # (a redelivered Task event is not invoked again: C04's listed recovery finding, not this property's business)
+        ctx.count("redelivered_unhandled_start_events")
+        _sched.run_schedules(ctx, scn, dict(meta, family="redelivered-unhandled"), judge_structure, 1, ["c09ru", k])
 
 
 SUBMITTED = [[], 0, False, "", [1, {"a": None}], "text", 3.5, {"a": []}, {}, [[]], [0], True, -1]
